@@ -232,6 +232,8 @@ func (e *executor[R]) executeAsync(fn func(exec Execution[R]) (R, error), withEx
 		ctx, cancelFunc = context.WithCancel(ctx)
 	}
 	exec := newExecution[R](ctx)
+	// Let the execution cancel its own context, so that Cancel records the result and cancels in one critical section
+	exec.cancelFunc = cancelFunc
 	result := &executionResult[R]{
 		execution:  exec,
 		cancelFunc: cancelFunc,
